@@ -94,6 +94,13 @@ def gen(rng, tier):
         mem = [c.name for c in Cip1852Coins][i % len(Cip1852Coins)]
         seed = rand_seed(rng)
         yield Case("shelley", [mem, hx(seed), rng.choice([0, 1, rng.getrandbits(31)]), rng.randrange(2), rng.choice([0, 1, rng.getrandbits(31)])], "shelley")
+    # every member at the edges of the index ranges: the largest account and address indexes, and the first values past them (refused)
+    for mem in [c.name for c in Cip1852Coins]:
+        seed = rand_seed(rng)
+        for acc, ch, ix, cls_ in ((2**31 - 1, 1, 2**31 - 1, "shelley-index-edge"), (0, 0, 2**31 - 1, "shelley-index-edge"), (2**31 - 1, 0, 0, "shelley-index-edge"),
+                                  (0, 0, 2**31 - 2, "shelley-index-edge"), (0, 0, 2**31, "neg-shelley-index"), (0, 0, 2**32 - 1, "neg-shelley-index"),
+                                  (2**31, 0, 0, "shelley-index-edge"), (0, 2, 0, "neg-shelley-index")):
+            yield Case("shelley", [mem, hx(seed), acc, ch, ix], cls_)
     # directed, output-dependent: hardened children whose new right half kR' = kR + ZR mod 2^256, or whose chain code, has a zero
     # top byte (fixed-width serialisation), found with an independent HMAC computation from the master key
     import hmac, hashlib
